@@ -14,6 +14,12 @@ wake-up, another played task): it must wake on its own second / beat.  PREV_END
 remembers how the event immediately before the current one ended (any clock of
 the process: every event runs under the library lock), so that a deviation
 right after a failed task gets its own mechanism key.
+
+Tasks that wake several times and are scheduled again while pending (ops
+'mplay' / 'mpause' / 'mmove'): vf/c12_moved.py, mixed into Run.
+TempoClock.play_next_bar(task) is one of the ways the one-shot children are
+played (how = 'clock.play_next_bar[-function]': first wake-up on the next bar
+line of the meter valid at the call).
 """
 
 import math
@@ -21,36 +27,15 @@ import math
 from vf import c12_model as M
 from vf import c12_contracts as K
 from vf.common import short_tb, tb_sites
-
-
-PREV_END = ['return']
+from vf.c12_moved import (MovedTasks, PREV_END, _take_prev_end, _after,
+                          quant_qp)
 
 
 class UserError(Exception):
     """User code failing inside a scheduled task."""
 
 
-def _take_prev_end():
-    prev = PREV_END[0]
-    PREV_END[0] = 'return'
-    return prev.split(':')[0]
-
-
-def _after(prev):
-    return '' if prev == 'return' else f'/right-after-task-ending-with-{prev}'
-
-
-def quant_qp(spec):
-    if spec is None:
-        return 1, 0          # documented default of Quant: next whole beat
-    if isinstance(spec, dict):
-        return spec['q'], spec['p']
-    if isinstance(spec, list):
-        return spec[0], spec[1]
-    return spec, 0
-
-
-class Run:
+class Run(MovedTasks):
     def __init__(self, prog, mode, sc, counts):
         """sc: namespace with TempoClock, Routine, Quant, main."""
         self.prog = prog
@@ -70,6 +55,7 @@ class Run:
         self.step_index = -1
         self.root = None
         self.wakes = []
+        self._mt_init()
 
     # -- bookkeeping
     def n(self, name, k=1):
@@ -208,6 +194,9 @@ class Run:
                 self.do_op(op)
                 if self.stop:
                     return
+            self.mt_settle()
+            if self.stop:
+                return
             if step['delta'] is None:
                 break
             self.set_expectation(step['delta'])
@@ -409,7 +398,15 @@ class Run:
     def op_play(self, spec, how, end='return'):
         sc, clk, mdl = self.sc, self.clk, self.model
         q, p = quant_qp(spec)
+        next_bar = how.startswith('clock.play_next_bar')
+        if next_bar:
+            # "evaluated at the next bar": a bar line is a grid point of
+            # quant = beats_per_bar, phase 0 of the current meter
+            q, p = mdl.bpb, 0
+            how = 'clock.play' + how[len('clock.play_next_bar'):]
+            self.n('play_next_bar_calls')
         rec = dict(q=q, p=p, spec=spec, how=how, end=end, ref=mdl.beats(self.now),
+                   next_bar=next_bar,
                    bbb=mdl.base_bar_beat, changes_at_play=self.map_changes,
                    played_at_second=self.now, wake=None, step=self.step_index)
         run = self
@@ -454,7 +451,9 @@ class Run:
                 ending()
             task = sc.Routine(child)
         qo = self._quant_obj(spec)
-        if how == 'routine.play':
+        if next_bar:
+            ok, _ = self.call('play_next_bar', clk.play_next_bar, task)
+        elif how == 'routine.play':
             ok, _ = self.call('play', task.play, clk, qo)
         else:
             ok, _ = self.call('play', clk.play, task, qo)
@@ -629,6 +628,8 @@ class Run:
                 continue
             s, b, changes = rec['wake']
             self.n('play_first_wakes_checked')
+            if rec.get('next_bar'):
+                self.n('play_next_bar_first_wakes_checked')
             why = M.grid_check(b, rec['q'], rec['p'], rec['ref'], rec['bbb'],
                                self.tolb(b, rec['ref']))
             changed = changes != rec['changes_at_play']
@@ -638,13 +639,17 @@ class Run:
             if prev != 'return':
                 self.n('wakes_checked_right_after_' + prev)
             if why:
-                if changed and self.mode == 'nrt':
+                if rec.get('next_bar'):
+                    key = f'C12/play-next-bar-first-wake/{why[0]}' + _after(prev)
+                elif changed and self.mode == 'nrt':
                     key = ('C12/play-quant-first-wake/'
                            'nrt-map-changed-while-pending')
                 else:
                     key = f'C12/play-quant-first-wake/{why[0]}' + _after(prev)
                 self.bad(key, play=_pub(rec), woke_at_beat=b, woke_at_second=s,
                          text=why[1])
+        if not self.stop:
+            self.judge_mtasks()
 
 
 def _pub(rec):
